@@ -53,17 +53,52 @@ theorem number_hints_select_base (t : IntTy) :
     (t.bits < 64 → checkHints Generated.LYD_VALHINT_DECNUM t.name = some 10) := by
   cases t <;> decide
 
-/-- FULL STATEMENT (false, finding F50): every source whose hints a 64-bit integer type accepts parses it in base 10. -/
+/-- FULL STATEMENT (false on the pinned tree, finding F50): every source that offers no octal/hexadecimal hint parses a
+    64-bit integer in base 10.  It is a statement about the generated table, so it is decided by inspecting the table: -/
 def Int64SourcesUseBase10 : Prop :=
-  ∀ hints b, checkHints hints "int64" = some b → hints ≠ Generated.LYD_HINT_SCHEMA → hints % 16 / 2 ≤ 1 → b = 10
+  ∀ hints b, hints % 16 / 2 ≤ 1 → checkHints hints "int64" = some b → b = 10
 
-/-- The JSON string route (`LYD_VALHINT_STRING | LYD_VALHINT_NUM64`, no base bit) gets base 0, so `"010"` is 8 there. -/
-theorem int64_sources_use_base10_fails : ¬ Int64SourcesUseBase10 := by
-  intro h
-  have := h (Generated.LYD_VALHINT_STRING + Generated.LYD_VALHINT_NUM64) 0 (by decide) (by decide) (by decide)
+/-- the table inspection: all 128 hint subsets -/
+def int64Base10Check : Bool :=
+  (List.range 128).all fun h => !decide (h % 16 / 2 ≤ 1) || (checkHints h "int64" == none) || (checkHints h "int64" == some 10)
+
+/-- The full statement holds exactly when the inspection of the generated table succeeds — whatever the table says.
+    On the pinned tree it fails (`int64Base10Check = false`); with the repair of F50 it succeeds. -/
+theorem int64_sources_use_base10_iff : Int64SourcesUseBase10 ↔ int64Base10Check = true := by
+  have hc : ∀ hints t, checkHints (hints % 128) t = checkHints hints t := by
+    intro hints t; unfold checkHints; simp
+  unfold Int64SourcesUseBase10 int64Base10Check
+  rw [List.all_eq_true]
+  constructor
+  · intro h x hx
+    have hx' : x < 128 := List.mem_range.mp hx
+    by_cases hb : x % 16 / 2 ≤ 1
+    · cases hch : checkHints x "int64" with
+      | none => simp
+      | some b => have := h x b hb hch; subst this; simp
+    · simp [hb]
+  · intro h hints b hb hch
+    have hm : hints % 128 < 128 := Nat.mod_lt _ (by decide)
+    have := h (hints % 128) (List.mem_range.mpr hm)
+    rw [hc] at this
+    have hb' : hints % 128 % 16 / 2 ≤ 1 := by
+      have : hints % 128 % 16 = hints % 16 := by omega
+      rw [this]; exact hb
+    simp only [hb', decide_true, Bool.not_true, Bool.false_or, hch, Bool.or_eq_true, beq_iff_eq, reduceCtorEq, false_or,
+      Option.some.injEq] at this
+    exact this
+
+/-- The F50 witness: if the JSON-string hints (`LYD_VALHINT_STRING | LYD_VALHINT_NUM64`, no base bit) get base 0 — they do
+    on the pinned tree, see the example — the full statement is false: `"010"` is 8 there and 10 from XML. -/
+theorem int64_sources_use_base10_fails (h : checkHints (Generated.LYD_VALHINT_STRING + Generated.LYD_VALHINT_NUM64) "int64" = some 0) :
+    ¬ Int64SourcesUseBase10 := by
+  intro hall
+  have := hall _ 0 (by decide) h
   cases this
 
-example : storeInt .int64 [] 17 [48, 49, 48] = .ok 8 ∧ storeInt .int64 [] Generated.LYD_HINT_DATA [48, 49, 48] = .ok 10 := by decide
+example : (checkHints 17 "int64" = some 0 ∧ int64Base10Check = false ∧ storeInt .int64 [] 17 [48, 49, 48] = .ok 8) ∨
+    (checkHints 17 "int64" = some 10 ∧ int64Base10Check = true ∧ storeInt .int64 [] 17 [48, 49, 48] = .ok 10) := by decide
+example : storeInt .int64 [] Generated.LYD_HINT_DATA [48, 49, 48] = .ok 10 := by decide
 
 /-- The stores depend on the hints only through `lyplg_type_check_hints`: equal verdict and base ⇒ equal result, for
     every lexical value (so the verdict cannot depend on the source in any other way). -/
@@ -135,16 +170,18 @@ example : lybInt .int16 (-2) = [0xfe, 0xff] ∧ unlybInt .int16 [] [0xfe, 0xff] 
 
 /-! ## decimal64 -/
 
-/-- FULL STATEMENT (false as written): acceptance ⇔ RFC 7950 §9.3.1 lexical space, representable mantissa, ranges. -/
-def Dec64AcceptIff : Prop :=
+/-- FULL STATEMENT: acceptance ⇔ RFC 7950 §9.3.1 lexical space, representable mantissa, ranges — for the parser variant
+    `nd` (`false`: the code of the pinned tree, `true`: with the repair of F2; the translator derives which one the source
+    at hand is by executing `lyplg_type_parse_dec64`, `Generated.dec64SignNeedsDigit`). -/
+def Dec64AcceptIff (nd : Bool) : Prop :=
   ∀ (fd : Nat), 1 ≤ fd → fd ≤ 18 → ∀ (range : List (Int × Int)) (hints : Nat) (s : Bytes) (k : Int),
     (checkHints hints "dec64").isSome = true → PartsWF (-(2 ^ 63)) (2 ^ 63 - 1) range →
-    (storeDec64 fd range hints s = .ok k ↔ DecLexWs true fd s k ∧ -(2 ^ 63) ≤ k ∧ k ≤ 2 ^ 63 - 1 ∧ InParts range k)
+    (storeDec64With nd fd range hints s = .ok k ↔ DecLexWs true fd s k ∧ -(2 ^ 63) ≤ k ∧ k ≤ 2 ^ 63 - 1 ∧ InParts range k)
 
-/-- Finding F2: the bare sign `"+"` is accepted as 0 although the RFC grammar needs a digit. -/
-theorem dec64_accept_iff_fails : ¬ Dec64AcceptIff := by
+/-- Finding F2: false for the pinned code — the bare sign `"+"` is accepted as 0 although the RFC grammar needs a digit. -/
+theorem dec64_accept_iff_fails : ¬ Dec64AcceptIff false := by
   intro h
-  have hacc : storeDec64 1 [] Generated.LYD_HINT_DATA [43] = .ok 0 := by decide
+  have hacc : storeDec64With false 1 [] Generated.LYD_HINT_DATA [43] = .ok 0 := by decide
   obtain ⟨⟨l, sg, ip, fr, r, point, hs, _, _, _, hip, _, _, _, hne, _⟩, _⟩ :=
     (h 1 (by decide) (by decide) [] Generated.LYD_HINT_DATA [43] 0 (by decide) trivial).mp hacc
   simp only [if_true] at hne
@@ -158,38 +195,51 @@ theorem dec64_accept_iff_fails : ¬ Dec64AcceptIff := by
     rw [this] at hip
     exact absurd hip.1 (by decide)
 
-/-- What the code accepts, exactly: the RFC lexical space without the requirement of a digit between a sign and the
-    point/end (`DecLexWs false`) — for every fraction-digits value, every range, every string. -/
-theorem dec64_accept_iff_partial (fd : Nat) (hfd : 1 ≤ fd) (range : List (Int × Int)) (hints : Nat) (s : Bytes) (k : Int)
+/-- What either variant accepts, exactly: `DecLexWs nd` — the RFC lexical space, for `nd = false` without the requirement
+    of a digit between a sign and the point/end.  Every fraction-digits value, every range, every string. -/
+theorem dec64_accept_iff_partial (nd : Bool) (fd : Nat) (hfd : 1 ≤ fd) (range : List (Int × Int)) (hints : Nat) (s : Bytes) (k : Int)
     (hh : (checkHints hints "dec64").isSome = true) (hwf : PartsWF (-(2 ^ 63)) (2 ^ 63 - 1) range) :
-    storeDec64 fd range hints s = .ok k ↔ DecLexWs false fd s k ∧ -(2 ^ 63) ≤ k ∧ k ≤ 2 ^ 63 - 1 ∧ InParts range k :=
-  storeDec64_accept_iff fd hfd range hints s k hh hwf
+    storeDec64With nd fd range hints s = .ok k ↔ DecLexWs nd fd s k ∧ -(2 ^ 63) ≤ k ∧ k ≤ 2 ^ 63 - 1 ∧ InParts range k :=
+  storeDec64_accept_iff nd fd hfd range hints s k hh hwf
 
-/-- Every RFC lexical value with a representable in-range mantissa is accepted with that mantissa (the ⇐ half of the
-    full statement holds; only ⇒ fails, and only for the forms without an integer digit). -/
-theorem dec64_accepts_rfc (fd : Nat) (hfd : 1 ≤ fd) (range : List (Int × Int)) (hints : Nat) (s : Bytes) (k : Int)
+/-- With the repair of F2 (a digit must follow the sign) the full statement holds. -/
+theorem dec64_accept_iff_repaired : Dec64AcceptIff true :=
+  fun fd hfd _ range hints s k hh hwf => storeDec64_accept_iff true fd hfd range hints s k hh hwf
+
+/-- The source at hand, whichever variant it is. -/
+theorem dec64_accept_iff_current (fd : Nat) (hfd : 1 ≤ fd) (range : List (Int × Int)) (hints : Nat) (s : Bytes) (k : Int)
+    (hh : (checkHints hints "dec64").isSome = true) (hwf : PartsWF (-(2 ^ 63)) (2 ^ 63 - 1) range) :
+    storeDec64 fd range hints s = .ok k ↔
+      DecLexWs Generated.dec64SignNeedsDigit fd s k ∧ -(2 ^ 63) ≤ k ∧ k ≤ 2 ^ 63 - 1 ∧ InParts range k :=
+  storeDec64_accept_iff _ fd hfd range hints s k hh hwf
+
+/-- Every RFC lexical value with a representable in-range mantissa is accepted with that mantissa by both variants (the ⇐
+    half of the full statement always holds; only ⇒ fails, and only for the forms without an integer digit). -/
+theorem dec64_accepts_rfc (nd : Bool) (fd : Nat) (hfd : 1 ≤ fd) (range : List (Int × Int)) (hints : Nat) (s : Bytes) (k : Int)
     (hh : (checkHints hints "dec64").isSome = true) (hwf : PartsWF (-(2 ^ 63)) (2 ^ 63 - 1) range)
     (hl : DecLexWs true fd s k) (hlo : -(2 ^ 63) ≤ k) (hhi : k ≤ 2 ^ 63 - 1) (hin : InParts range k) :
-    storeDec64 fd range hints s = .ok k :=
-  (storeDec64_accept_iff fd hfd range hints s k hh hwf).mpr ⟨hl.weaken, hlo, hhi, hin⟩
+    storeDec64With nd fd range hints s = .ok k :=
+  (storeDec64_accept_iff nd fd hfd range hints s k hh hwf).mpr ⟨hl.weaken nd, hlo, hhi, hin⟩
 
+example : storeDec64With false 1 [] Generated.LYD_HINT_DATA [45, 46, 53] = .ok (-5) ∧
+    storeDec64With true 1 [] Generated.LYD_HINT_DATA [45, 46, 53] = .error .BadChar := by decide
 example : storeDec64 2 [(-100, 100), (500, 9223372036854775807)] Generated.LYD_HINT_DATA [45, 48, 46, 53, 48, 48, 32] = .ok (-50) := by decide
 example : storeDec64 18 [] Generated.LYD_HINT_DATA
     [45, 57, 46, 50, 50, 51, 51, 55, 50, 48, 51, 54, 56, 53, 52, 55, 55, 53, 56, 48, 56] = .ok (-9223372036854775808) := by decide
 
 /-- Canonical idempotence for **every** int64 mantissa and every fraction-digits value: `parse (print n) = n`. -/
-theorem dec64_canon_idempotent (fd : Nat) (hfd : 1 ≤ fd) (range : List (Int × Int)) (hints : Nat) (n : Int)
+theorem dec64_canon_idempotent (nd : Bool) (fd : Nat) (hfd : 1 ≤ fd) (range : List (Int × Int)) (hints : Nat) (n : Int)
     (hh : (checkHints hints "dec64").isSome = true) (hwf : PartsWF (-(2 ^ 63)) (2 ^ 63 - 1) range)
     (hlo : -(2 ^ 63) ≤ n) (hhi : n ≤ 2 ^ 63 - 1) (hin : InParts range n) :
-    storeDec64 fd range hints (num2str fd n) = .ok n :=
-  (storeDec64_accept_iff fd hfd range hints _ n hh hwf).mpr ⟨(num2str_lex fd hfd n).weaken, hlo, hhi, hin⟩
+    storeDec64With nd fd range hints (num2str fd n) = .ok n :=
+  (storeDec64_accept_iff nd fd hfd range hints _ n hh hwf).mpr ⟨(num2str_lex fd hfd n).weaken nd, hlo, hhi, hin⟩
 
 /-- … hence for whatever was parsed, the canonical string re-parses to the same value. -/
-theorem dec64_canon_of_parsed (fd : Nat) (hfd : 1 ≤ fd) (range : List (Int × Int)) (hints : Nat) (s : Bytes) (k : Int)
+theorem dec64_canon_of_parsed (nd : Bool) (fd : Nat) (hfd : 1 ≤ fd) (range : List (Int × Int)) (hints : Nat) (s : Bytes) (k : Int)
     (hh : (checkHints hints "dec64").isSome = true) (hwf : PartsWF (-(2 ^ 63)) (2 ^ 63 - 1) range)
-    (h : storeDec64 fd range hints s = .ok k) : storeDec64 fd range hints (num2str fd k) = .ok k := by
-  obtain ⟨_, hlo, hhi, hin⟩ := (storeDec64_accept_iff fd hfd range hints s k hh hwf).mp h
-  exact dec64_canon_idempotent fd hfd range hints k hh hwf hlo hhi hin
+    (h : storeDec64With nd fd range hints s = .ok k) : storeDec64With nd fd range hints (num2str fd k) = .ok k := by
+  obtain ⟨_, hlo, hhi, hin⟩ := (storeDec64_accept_iff nd fd hfd range hints s k hh hwf).mp h
+  exact dec64_canon_idempotent nd fd hfd range hints k hh hwf hlo hhi hin
 
 example : num2str 3 (-5) = [45, 48, 46, 48, 48, 53] ∧ num2str 1 10 = [49, 46, 48] ∧ num2str 18 (-9223372036854775808) =
     [45, 57, 46, 50, 50, 51, 51, 55, 50, 48, 51, 54, 56, 53, 52, 55, 55, 53, 56, 48, 56] := by decide
@@ -214,13 +264,13 @@ theorem dec64_eq_iff_canon_eq (fd : Nat) (hfd : 1 ≤ fd) (a b : Int)
   constructor
   · intro h; rw [h]
   · intro h
-    have h1 := parseDec64_num2str fd hfd a ha.1 ha.2
-    have h2 := parseDec64_num2str fd hfd b hb.1 hb.2
+    have h1 := parseDec64_num2str false fd hfd a ha.1 ha.2
+    have h2 := parseDec64_num2str false fd hfd b hb.1 hb.2
     rw [h, h2] at h1
     injection h1 with h1; exact h1.symm
 
-theorem dec64_lyb_roundtrip (fd : Nat) (range : List (Int × Int)) (hints : Nat) (s : Bytes) (v : Int)
-    (h : storeDec64 fd range hints s = .ok v) : unlybDec64 range (lybDec64 v) = .ok v ∧ (lybDec64 v).length = 8 := by
+theorem dec64_lyb_roundtrip (nd : Bool) (fd : Nat) (range : List (Int × Int)) (hints : Nat) (s : Bytes) (v : Int)
+    (h : storeDec64With nd fd range hints s = .ok v) : unlybDec64 range (lybDec64 v) = .ok v ∧ (lybDec64 v).length = 8 := by
   obtain ⟨hlo, hhi, hr⟩ := storeDec64_ok_bounds h
   exact ⟨unlybDec64_lybDec64 range v hlo hhi hr, leBytes_length _ _⟩
 
